@@ -142,6 +142,8 @@ type chunkReader struct {
 	// how the fault is delivered: 0 = (0, err) and the same again on every later call; 1 = the bytes before the fault TOGETHER with
 	// the error in one call, then (0, io.EOF); 2 = bytes together with the error, then (0, err) again; 3 = (0, err) once, then (0, io.EOF)
 	style int
+	// seekLimit > 0: only that many calls of Seek succeed
+	seekLimit, seeks int
 }
 
 var errInjected = errors.New("injected read fault")
@@ -192,6 +194,10 @@ func (r *chunkReader) Read(p []byte) (int, error) {
 }
 
 func (r *chunkReader) Seek(off int64, whence int) (int64, error) {
+	if r.seekLimit > 0 && r.seeks >= r.seekLimit {
+		return 0, errInjected
+	}
+	r.seeks++
 	switch whence {
 	case io.SeekStart:
 		r.pos = int(off)
@@ -434,7 +440,7 @@ func runParse(c *Ctx, std *fdCapture) {
 					v.Extra = map[string]string{"first": trunc(line, 200), "again": trunc(again.Line, 200)}
 					c.addViolation(v)
 				}
-				for _, mode := range []string{"one-byte", "random-chunks", "offset-start"} {
+				for _, mode := range []string{"one-byte", "random-chunks", "offset-start", "one-seek-only"} {
 					cr := &chunkReader{data: []byte(q), failAt: -1}
 					switch mode {
 					case "one-byte":
@@ -444,6 +450,10 @@ func runParse(c *Ctx, std *fdCapture) {
 					case "offset-start":
 						cr.chunks = func() int { return 4096 }
 						cr.pos = len(q) / 2
+					case "one-seek-only": // the reader can be positioned once (at the start of the parse) and never again
+						cr.chunks = func() int { return 7 }
+						cr.pos = len(q) / 3
+						cr.seekLimit = 1
 					}
 					got := parseWith(func() (mpath.Operation, error) { return mpath.ParseReadSeeker(cr) })
 					if got.Line != line {
